@@ -220,8 +220,21 @@ pub fn run(args: &Args) {
         let wd = gen_::Workdir::new("pkg");
         let n = args.num("n", 30);
         for i in 0..n {
-            let cfg = gen_::rand_cfg(&mut rng, 4, 3000);
+            let mut cfg = gen_::rand_cfg(&mut rng, 4, 3000);
+            // every fourth package in the large-file layout (64-bit sizes, stripped archive) through the hook, with
+            // names of every length mod 8 so that the 64-bit entries meet every alignment situation
+            #[cfg(rpm_verif)]
+            if i % 4 == 1 {
+                cfg.name = format!("{}{}", cfg.name, "x".repeat((i as usize / 4) % 8));
+                if cfg.files.is_empty() {
+                    let mut used = vec![];
+                    cfg.files.push(gen_::rand_file(&mut rng, &mut used, 50));
+                }
+                rpm::verif::set_large_file_threshold(0);
+            }
             let built = guarded(|| gen_::build(&cfg, &wd));
+            #[cfg(rpm_verif)]
+            rpm::verif::set_large_file_threshold(u32::MAX as u64);
             let mut p = match built {
                 Ok(Ok(p)) => p,
                 Ok(Err(e)) => { t.emit(json!({"event":"BuildErr","i":i,"err":pkgobs::err_name(&e),"cfg":gen_::cfg_json(&cfg)})); continue; }
